@@ -190,6 +190,7 @@ pub fn check(plans: &[Plan], recs: &[RunRec]) -> Outcome {
     let (plan, rec) = (&plans[0], &recs[0]);
     let mut out = Outcome::default();
     common_stats(plan, rec, &mut out.stats);
+    super::check_input_blocked(rec, &mut out);
     let h = history(rec);
     let views = go_views(&h);
     if plan.params.b("long_session") {
@@ -209,6 +210,14 @@ pub fn check(plans: &[Plan], recs: &[RunRec]) -> Outcome {
             out.stats.inc("reach.warm_cache_search");
         }
         warm = true;
+        if let Some(b) = g.bestmoves.first() {
+            if g.infos.iter().any(|i| i.ev > b.ev) {
+                out.violations.push(Violation::new(
+                    "info_after_bestmove",
+                    format!("go #{} ({:?}) printed an info line after its bestmove", v.idx, v.text),
+                ));
+            }
+        }
         let mut expect = 1u64;
         let mut order_ok = true;
         for i in &g.infos {
